@@ -6,6 +6,7 @@
    lca   <isFile> <sqlite: v | l | r:Class> <text: r | e | t:<hex char> <dec>>
    sbt   <zip: - | r:Class | m<count>> <open: - | Class> <dec> <mkdir: - | Class> <sample: n|d|e|u:Class> <net> <manifest: n|d|e|x|u:Class | c <csvdoc>>
    chain <k> {<fn> <inner>}*k        inner = none | idx | exc:Cls<Base<…
+   nd    <fs|zip> <storage failure: Class>      the lazy node loader on a node whose file the storage cannot produce
 
    csvdoc = <first: E | X:Class | L<hex>> <tail: e|c|d|x:Class> <nrows> {<ncells> <cell-hex>…}
    dec    = J | V | R | U | D <json>
@@ -14,6 +15,7 @@
 import SmVerif.Model.CsvReaders
 import SmVerif.Model.JsonReaders
 import SmVerif.Model.LoaderChain
+import SmVerif.Model.SbtNodes
 import SmVerif.Model.Proto
 
 namespace Sm.DriverC20r
@@ -330,6 +332,15 @@ def step (_ : Unit) (line : String) : Unit × String :=
   | "lca" :: ts => ((), doLca ts)
   | "sbt" :: ts => ((), doSbt ts)
   | "chain" :: ts => ((), doChain ts)
+  | ["nd", st, c] =>
+    match pCls c with
+    | none => ((), "bad-op")
+    | some cls =>
+      let r := if st == "zip" then SbtN.zipLoad (some cls) true else SbtN.StorageRes.raises cls
+      match SbtN.nodeData r .Other with
+      | .ok .fresh => ((), "fresh")
+      | .ok .saved => ((), "saved")
+      | .error e => ((), showStop e)
   | _ => ((), "bad-op")
 
 end Sm.DriverC20r
